@@ -247,7 +247,7 @@ func pollClosed(c chan struct{}) bool {
 	}
 }
 
-// thread programs: ["set", v] ["value"] ["watch"] (watch = the documented observer loop; never ends)
+// thread programs: ["set", v] ["value"] ["value-held", g] ["watch"] (watch = the documented observer loop; never ends)
 func runWatch(c *Case) *Obs {
 	l := &tlog{}
 	h := l.newShard() // the controller's shard
@@ -278,6 +278,13 @@ func runWatch(c *Case) *Obs {
 				h.add("ret-set", t)
 			case "value":
 				value(h, t)
+			case "value-held":
+				// the caller is held between the return of Value and its look at the channel
+				h.add("call-value", t)
+				v, ch := w.Value()
+				gates.get(num(a[1])).wait()
+				closed := pollClosed(ch)
+				h.add("ret-value", t, v, closed, ids.id(ch, v))
 			case "watch":
 				for {
 					ch := value(h, t)
